@@ -27,6 +27,7 @@ RULE = (
     ' Round 5: near-miss keys of VERSION/NOTES/NOTEDATA set and moved to the front.'
     ' Round 6: marathon charts with non-LF separators, 32-70 charts, second parse after the first result was edited in place.'
     ' Round 7: braces and U+FFFF/U+212A in values and keys, keys that are substrings or look-alikes of the multi-value keys.'
+    ' Round 9: a first parameter with an escape on text offsets 4095/8191/16383/65535.'
 )
 EXHAUSTIVE_PART = "all strings of length <= 4 (quick, 4681) / <= 5 (thorough, 37449) over 8 symbols in 6 placements"
 ASSUMPTIONS = ["msdparser.parse_msd tokenizes correctly", "values inside msdparser's escaping gaps are excluded by the property"]
